@@ -14,6 +14,7 @@
 -/
 import Lcapy.Model.MNA
 import Lcapy.Model.GQ
+import Lcapy.Generated.TwoPort
 namespace Lcapy.Netlist
 open Lcapy Lcapy.MNA
 
@@ -26,7 +27,7 @@ deriving Repr
 
 /-- component types of the restricted grammar, longest prefix first -/
 def types : List (String × Nat) :=
-  [("TF", 4), ("GY", 4), ("TR", 2), ("AM", 2), ("R", 2), ("C", 2), ("L", 2), ("V", 2), ("I", 2),
+  [("TF", 4), ("TP", 4), ("TL", 4), ("SP", 3), ("GY", 4), ("TR", 2), ("AM", 2), ("R", 2), ("C", 2), ("L", 2), ("V", 2), ("I", 2),
    ("E", 4), ("G", 4), ("F", 2), ("H", 2), ("K", 0), ("W", 2), ("O", 2), ("P", 2), ("Y", 2)]
 
 def typeOf (name : String) : Option (String × Nat) := types.find? (fun t => name.startsWith t.1)
@@ -43,6 +44,15 @@ def parseLine (line : String) : Except String RawCpt :=
       if ty = "E" && rest[2]? = some "opamp" then
         if rest.length < 5 then .error s!"syntax:too-few-nodes:{name}"
         else .ok ⟨name, "Eopamp", (rest.take 2) ++ ((rest.drop 3).take 2), rest.drop 5⟩
+      -- `SPname pp|pm|ppp|pmm|ppm P P P [P]` (keyword before the nodes)
+      else if ty = "SP" then
+        match rest with
+        | kw :: nodes =>
+          let need := if kw.length = 3 then 4 else 3
+          if !(["pp", "pm", "ppp", "pmm", "ppm"].contains kw) then .error s!"unsupported:type:{name}:{kw}"
+          else if nodes.length ≠ need then .error s!"syntax:node-count:{name}"
+          else .ok ⟨name, "SP", nodes, [kw]⟩
+        | [] => .error s!"syntax:too-few-nodes:{name}"
       else if rest.length < nn then .error s!"syntax:too-few-nodes:{name}"
       else .ok ⟨name, ty, rest.take nn, rest.drop nn⟩
 
@@ -75,20 +85,24 @@ def mergeWire (cls : List (List String)) (a b : String) : List (List String) :=
 def nodeClasses (cs : List RawCpt) : Except String (List (List String)) :=
   let all := cs.foldl (fun acc c => c.nodes.foldl addNode acc) []
   let merged := cs.foldl (fun acc c =>
-    if c.ty = "W" then match c.nodes with | [a, b] => mergeWire acc a b | _ => acc else acc) all
+    if c.ty = "W" then match c.nodes with | [a, b] => mergeWire acc a b | _ => acc
+    -- `equipotential_nodes`: "Assuming V2' = V1'" — the negative terminals of a two-port / transmission line are joined
+    else if c.ty = "TP" || c.ty = "TL" then match c.nodes with | [_, b, _, d] => mergeWire acc b d | _ => acc
+    else acc) all
   match findClass merged "0" with
   | none => .error "no-ground"
   | some g => .ok (merged.getD g [] :: merged.eraseIdx g)
 
 /-! ### unknown branch currents (MNA.__init__) -/
 
-def needsBranch (ty : String) : Bool := ["L", "V", "E", "H", "TF", "GY", "AM", "TR"].contains ty
+def needsBranch (ty : String) : Bool := ["L", "V", "E", "H", "TF", "GY", "AM", "TR", "SP", "TL", "TPA"].contains ty
 def needsExtra (ty : String) : Bool := ty = "GY"
 def currentControlled (ty : String) : Bool := ["F", "H"].contains ty
 
 def branchList (cs : List RawCpt) : List String :=
   cs.foldl (fun acc c =>
-    let acc := if needsBranch c.ty then acc ++ [c.name] else acc
+    let acc := if (needsBranch c.ty || (c.ty = "TP" && ["A", "B", "G", "H"].contains (c.args.getD 0 "")))
+                  && !acc.contains c.name then acc ++ [c.name] else acc     -- may already be there as a controlling component
     let acc := if needsExtra c.ty then acc ++ [c.name ++ "X"] else acc
     if currentControlled c.ty then
       match c.args with
@@ -224,11 +238,31 @@ def elabOne (an : Analysis) (cs : List RawCpt) (cls : List (List String)) (brs :
       pure [.F (n 0) (n 1) mc f]
   | "H" => do
       let cn ← match c.args.head? with | some x => pure x | none => throw "syntax:H"
-      if !isVsource cs cn then throw "unsupported:control-not-vsource"
       let h ← reqVal (c.args[1]?)
       let m ← lookupIdx brs c.name
       let mc ← lookupIdx brs cn
-      pure [.H (n 0) (n 1) m mc h]
+      -- CCVS._stamp: a controlling component that owns a branch current (V, L, AM, E, H, TF, …) is used as it is;
+      -- for an admittance-type component (R, C, Y) the control current is defined as Y·V − Isc on an extra branch
+      -- (by the first CCVS that names it; `+=` of the same row by a later one does not change the solution set)
+      match cs.find? (fun k => k.name = cn) with
+      | none => throw s!"unknown-name:{cn}"
+      | some k =>
+        if needsBranch k.ty || (k.ty = "TP" && ["A", "B", "G", "H"].contains (k.args.getD 0 "")) then
+          pure [.H (n 0) (n 1) m mc h]
+        else if ["R", "C", "Y"].contains k.ty then do
+          let first := (cs.find? (fun q => q.ty = "H" && q.args.head? = some cn)).map (·.name) = some c.name
+          if !first then pure [.H (n 0) (n 1) m mc h] else
+          let kn ← k.nodes.mapM (nodeIdx cls)
+          let v ← reqVal k.args.head?
+          let kind := an.kind
+          let (y, isc) : GQ × GQ ← match k.ty with
+            | "R" => pure ((1 : GQ) / v, (0 : GQ))
+            | "Y" => pure (v, (0 : GQ))
+            | _ => do
+              let v0 ← optVal an (k.args[1]?)
+              pure (capY kind an.s v, match kind, v0 with | .ivp, some v0 => v * v0 | _, _ => 0)
+          pure [.HY (n 0) (n 1) m (kn.getD 0 0) (kn.getD 1 0) mc y isc h]
+        else throw "unsupported:control-component"
   | "TF" => do
       let a ← reqVal c.args.head?
       let m ← lookupIdx brs c.name
@@ -243,6 +277,44 @@ def elabOne (an : Analysis) (cs : List RawCpt) (cls : List (List String)) (brs :
       let a ← reqVal c.args.head?
       let m ← lookupIdx brs c.name
       pure [.TR (n 0) (n 1) m a]
+  | "TP" => do
+      -- `TPname Np Nm Ncp Ncm A|B|G|H|Y|Z p11 p12 p21 p22`; sources inside the two-port are refused by the stamps.
+      -- TPB/TPG/TPH stamp as TPA with `cpt.A11 …` (the code's B→A, G→A, H→A conversions); TPZ as TPY with `cpt.Y11 …`
+      if c.args.length ≠ 5 then throw s!"unsupported:two-port-sources:{c.name}"
+      let p11 ← reqVal c.args[1]?
+      let p12 ← reqVal c.args[2]?
+      let p21 ← reqVal c.args[3]?
+      let p22 ← reqVal c.args[4]?
+      let M : M2 GQ := ⟨p11, p12, p21, p22⟩
+      let chk (M : M2 GQ) : Except String (M2 GQ) :=
+        if M.a11.isDef && M.a12.isDef && M.a21.isDef && M.a22.isDef then pure M else throw s!"singular-conversion:{c.name}"
+      match c.args.getD 0 "" with
+      | "Y" => pure [.TPY (n 0) (n 1) (n 2) (n 3) p11 p12 p21 p22]
+      | "Z" => do let Y ← chk (Gen.Z_to_Y M 0); pure [.TPY (n 0) (n 1) (n 2) (n 3) Y.a11 Y.a12 Y.a21 Y.a22]
+      | k => do
+        let A ← match k with
+          | "A" => pure M
+          | "B" => chk (Gen.B_to_A M 0)
+          | "G" => chk (Gen.G_to_A M 0)
+          | "H" => chk (Gen.H_to_A M 0)
+          | _ => throw s!"unsupported:type:{c.name}:{k}"
+        let m ← lookupIdx brs c.name
+        pure [.TPA (n 0) (n 1) (n 2) (n 3) m A.a11 A.a12 A.a21 A.a22]
+  | "TL" =>
+      -- transmission line: at DC the identity chain matrix; other kinds need cosh/sinh of γ·l (not modelled)
+      match an with
+      | .dc => do let m ← lookupIdx brs c.name; pure [.TPA (n 0) (n 1) (n 2) (n 3) m 1 0 0 1]
+      | _ => throw "unsupported:TL-outside-dc"
+  | "SP" => do
+      let m ← lookupIdx brs c.name
+      let one : GQ := 1
+      match c.args.getD 0 "", ns with
+      | "pp", [a, b, o] => pure [.SP a b o 0 m one one 0]
+      | "pm", [a, b, o] => pure [.SP a b o 0 m one (-one) 0]
+      | "ppp", [a, b, o, d] => pure [.SP a b o d m one one one]
+      | "pmm", [a, b, o, d] => pure [.SP a b o d m one (-one) (-one)]
+      | "ppm", [a, b, o, d] => pure [.SP a b o d m one one (-one)]
+      | _, _ => throw s!"syntax:SP:{c.name}"
   | "O" => pure [.Open (n 0) (n 1)]
   | "P" => pure [.Open (n 0) (n 1)]
   | "W" => pure []
